@@ -11,6 +11,32 @@ from vf import gsx, lexemes, parsing
 from vf.runner import Check, Result, exc_sig
 
 # pumping family: opener + unit * N (+ closer).  Finds super-linear behaviour of the lexer patterns and of the
+def unicode_class_chars():
+    """one code point per Unicode general category (the first of the BMP, and the first astral one where the category has
+    any), code points without a character name, and characters that str methods classify unlike ASCII (digits that are not
+    decimal, white space that is not ASCII, case-folding letters, look-alikes of SQL punctuation)"""
+    import sys
+    import unicodedata
+    first = {}
+    for cp in list(range(0x80, 0x3000)) + list(range(0xD7F0, 0x10000)) + list(range(0x10000, 0x10400)) + list(range(0x1D400, 0x1D500)) + list(range(0xE0000, 0xE0080)) + [0xF0000, 0x10FFFF]:
+        cat = unicodedata.category(chr(cp))
+        first.setdefault((cat, cp > 0xFFFF), chr(cp))
+    out = list(first.values())
+    out += ['\x85', '\ue000', '\uffff', '\u0378', '\ud800', '\udfff', '\ufeff', '\u200b', '\u2028', '\u2029', '\xa0', '\uff07', '\uff1b', '\u0661', '\xb2', '\u2167', '\u0301',
+            '\u0130', '\u0131', '\u017f', '\u212a', '\x7f', '\x1b', '\x0b', '\x0c', '\r', '\x1c', '\x1f']
+    seen, uniq = set(), []
+    for c in out:
+        if c not in seen:
+            seen.add(c)
+            uniq.append(c)
+    return uniq
+
+
+UNICODE_CONTEXTS = ['{c}', 'select {c}', 'select a{c}', 'select {c}a', "select '{c}'", 'select `{c}`', 'select "{c}"', 'select 1{c}', 'select a {c} b', 'select a from t {c}',
+                    '{c} select 1', 'select 1 -- {c}', 'select 1 /* {c} */', 'select @{c}', 'select a{c}b from t where {c}', 'select 1;{c}', "select 'a' {c}{c}",
+                    'create model m from db (select {c}) predict y', 'select a\n{c}\nfrom t', 'select a.{c}']
+
+
 # error reporter: one case per (opener, unit of length <= 2 over PUMP_CHARS, N, closed or not)
 PUMP_OPENERS = ['', "'", '"', '`', '@', '@@', "@'", '@`', '@"', '/*', '--', '#', '1', '1.', 'a', 'a.', '(', "x'", '$']
 PUMP_CHARS = list("a1'\"`\\ \n.@-/*_%;")
@@ -87,6 +113,10 @@ class CHECK(Check):
                     out.append((d, 'text', "select '" + ''.join(tup)))
             for text in pump_texts(thorough):
                 out.append((d, 'pump', text))
+            # one code point per Unicode general category / unnamed / oddly classified, in every lexical context
+            for c in unicode_class_chars():
+                for ctx in UNICODE_CONTEXTS:
+                    out.append((d, 'text', ctx.format(c=c)))
             # keywords spelt with a non-ASCII letter that the case-insensitive lexer folds onto an ASCII one: in the shortest
             # accepted sentence that contains the keyword
             first = {}
@@ -175,7 +205,7 @@ class CHECK(Check):
         tr = sum(f.ex['edges'] for f in self.fams.values()) + sum(f.ex['edges'] for f in self.fams2.values())
         return {'exhaustive': True, 'states': st, 'transitions': tr, 'traces_validated_against_impl': agg['n'],
                 'rule': 'S0 edge+pair+triple (P,i,C,j,D) cover, S1 (insert/replace every terminal, delete, truncate at every abstract state), lexeme respellings, '
-                        'all token pairs, all strings of length<=3 over the character alphabet, size ladder, pumping family (19 openers x units of length<=2 over 16 characters x N in 16, 64, open and closed); distinct_nontrivial = '
+                        'all token pairs, all strings of length<=3 over the character alphabet, one code point per Unicode general category (+ unnamed, surrogate, oddly classified ones) x 20 lexical contexts, size ladder, pumping family (19 openers x units of length<=2 over 16 characters x N in 16, 64, open and closed); distinct_nontrivial = '
                         'distinct (dialect, accepted text) or (dialect, error header, last message line)',
                 'char_alphabet': CHARS if self.tier == 'thorough' else CHARS[:30] + ['é']}
 
